@@ -9,6 +9,19 @@ Import ListNotations.
 Theorem C13_packed_forward_refines_scan (X H : Type) (cell : X -> H -> H) (fuel : nat) (rows : list (list X)) (h0 : list H) :
   length rows <= length h0 -> loop cell (cols fuel rows) h0 = cols fuel (scans cell h0 rows).
 Proof. exact (packed_forward_refines_scan cell fuel rows h0). Qed.
+(* reverse direction (reverse_layer=True): the batch GROWS along the reversed time axis, and a row takes its initial state from h_0 at
+   the step where its sequence starts.  For every cell, every list of columns with non-decreasing lengths and every previous state:
+   row i of the loop's outputs is the recurrence over row i of the inputs, started from the state row i holds on entry ... *)
+Theorem C13_reverse_loop_rows (X H : Type) (cell : X -> H -> H) (h0 : list H) (cs : list (list X)) (h : list H) (i : nat) (hi : H) :
+  nondecreasing X (length h) cs -> Forall (fun c => length c <= length h0) cs -> length h <= length h0 ->
+  nth_error (h ++ skipn (length h) h0) i = Some hi ->
+  rowseq H i (rloop X H cell h0 cs h) = rscan X H cell hi (rowseq X i cs).
+Proof. exact (rloop_rows X H cell h0 cs h i hi). Qed.
+(* ... hence for the whole reversed layer, with the outputs put back in time order: row i = reversed recurrence over the reversed row *)
+Theorem C13_reverse_layer_rows (X H : Type) (cell : X -> H -> H) (h0 : list H) (cols_fwd : list (list X)) (i : nat) (hi : H) :
+  nondecreasing X 0 (rev cols_fwd) -> Forall (fun c => length c <= length h0) cols_fwd -> nth_error h0 i = Some hi ->
+  rowseq H i (rev (rloop X H cell h0 (rev cols_fwd) [])) = rev (rscan X H cell hi (rev (rowseq X i cols_fwd))).
+Proof. exact (reverse_layer_rows X H cell h0 cols_fwd i hi). Qed.
 (* compute_seq_lengths (generated): for the non-increasing batch sizes of a PackedSequence, entry i is the number of time steps whose
    batch still contains sequence i (its length), and there is one entry per sequence -- the index used to gather the last states *)
 Theorem C13_seq_lengths_correct (b0 : nat) (rest : list nat) (i : nat) : noninc b0 rest -> i < b0 ->
@@ -23,5 +36,7 @@ Example C13_nonvacuous :
 Proof. repeat split; try (cbn; lia); vm_compute; reflexivity. Qed.
 
 Print Assumptions C13_packed_forward_refines_scan.
+Print Assumptions C13_reverse_loop_rows.
+Print Assumptions C13_reverse_layer_rows.
 Print Assumptions C13_seq_lengths_correct.
 Print Assumptions C13_seq_lengths_length.
